@@ -45,6 +45,7 @@ struct PairCfg {
     bool client_trusts_server = true;
     bool forge_server_cert = false;        // server presents a certificate whose issuer signature is invalid
     bool forge_client_cert = false;
+    bool client_cert_is_ca = false;        // byzantine client: presents the public CA certificate as its own (it holds no matching key)
     int ocsp = 0;                          // OCSP stapling: the server holds a response (1 good, 2 revoked) and the client asks for it
     bool chain = false;                    // both identities are presented as leaf + issuer certificate (two chain elements on the wire)
     int send_sni = 0;                      // the client sends its expected name as server_name (2: + ALPN, 3: + a private extension)
